@@ -56,7 +56,7 @@ func (c24) Generate(r *engine.Rand, index int, tier string) *engine.Scenario {
 	if index%4 == 1 {
 		w.Kind, w.Video = "scene", true
 	}
-	if index%16 == 9 {
+	if index%16 == 10 {
 		// the largest cartridges (and other shapes): what the guest reads from far-away pages straight
 		// after construction is part of the trace
 		sc.Class = "triple-run-shape"
@@ -68,7 +68,7 @@ func (c24) Generate(r *engine.Rand, index int, tier string) *engine.Scenario {
 			w.Kind = "prog"
 		}
 	}
-	if index%16 == 13 {
+	if index%16 == 14 {
 		// the pace of the audio device: a consumer in a goroutine of its own takes the samples in bursts of
 		// one size in one run and of another size in the next; the two streams are the same, sample for sample
 		sc.Class = "consumer-pace"
@@ -102,6 +102,12 @@ func (c24) Generate(r *engine.Rand, index int, tier string) *engine.Scenario {
 		// inside a few machine cycles; nothing the emulator produces may depend on how long the host took
 		for i, n := 0, r.Range(1, 3); i < n; i++ {
 			sc.Events = append(sc.Events, engine.Event{At: uint64(r.Intn(int(sc.Cycles))), K: "stall", N: int64(r.Range(22, 45))})
+		}
+		// the picture moves from frame to frame (scroll registers rewritten once or twice per frame)
+		for f := uint64(0); f < sc.Cycles/17556; f++ {
+			for i, n := 0, r.Range(1, 2); i < n; i++ {
+				sc.Events = append(sc.Events, engine.Event{At: f*17556 + uint64(r.Intn(17556)), K: "bus_w", A: engine.Pick(r, []uint16{0xff43, 0xff42}), V: r.Byte()})
+			}
 		}
 		sortEvents(sc.Events)
 	}
